@@ -684,6 +684,33 @@ func runKvs(seed uint64, cas int, tier string) *KvsRes {
 			}
 			oplog = append(oplog, fmt.Sprintf("MultiPut of %d keys [%d,%d) id=%d", n, bigLo, bigLo+uint64(n), id))
 			res.Keys[fmt.Sprintf("put/%d", n/100*100)] = true
+		} else if i%20 == 13 {
+			// one multi-put that names few keys many times: it is a sequence of
+			// puts applied as one, so the last pair of a key is its latest put
+			n := []int{6, 12, 13, 20, 40, 80}[rng.Intn(6)]
+			var pairs []kvs.KVPair
+			last := map[uint64]uint64{}
+			for j := 0; j < n; j++ {
+				k := keys[rng.Intn(4)]
+				pairs = append(pairs, kvs.KVPair{Key: k, Val: kvVal(next)})
+				last[k] = next
+				next++
+			}
+			if !kv.MultiPut(pairs) {
+				viol("MultiPut of %d pairs fails", len(pairs))
+			}
+			for k, id := range last {
+				st[k] = id
+			}
+			for k := range last {
+				p, gok := kv.Get(k)
+				if gid, wf := kvID(p.Val); !gok || !wf || gid != st[k] {
+					viol("after a MultiPut of %d pairs that names key %d several times Get returns id %d, the last pair of that key had id %d", n, k, gid, st[k])
+					break
+				}
+			}
+			oplog = append(oplog, fmt.Sprintf("MultiPut of %d pairs over 4 keys (repeated keys), last ids %v", n, last))
+			res.Keys[fmt.Sprintf("put/repeated-keys/%d", n)] = true
 		} else if rng.Intn(3) != 0 {
 			n := 1 + rng.Intn(5)
 			var pairs []kvs.KVPair
@@ -794,6 +821,11 @@ func runKvs(seed uint64, cas int, tier string) *KvsRes {
 			}
 		}
 	}
+	// ---- crash while other callers' puts are being refused -----------------
+	for h := 0; h < 6 && len(res.Viol) == 0; h++ {
+		childLog("kvs concurrent crash history %d", h)
+		kvsConcCrash(rng.Sub(uint64(h)+900), res, viol)
+	}
 	// ---- concurrent histories ------------------------------------------
 	nh := 40
 	if tier == "thorough" {
@@ -804,6 +836,103 @@ func runKvs(seed uint64, cas int, tier string) *KvsRes {
 		runKvsHistory(rng.Sub(uint64(h)+3), res, viol)
 	}
 	return res
+}
+
+// kvsConcCrash: one caller puts increasing ids into its own keys while two
+// others issue multi-puts that are too large for one journal transaction (they
+// are refused; go-journal then resets its saved flush position).  For every
+// cut right after an acknowledgement of the first caller the recovered value
+// of each of its keys must be at least the acknowledged one.
+func kvsConcCrash(rng *Rng, res *KvsRes, viol func(string, ...interface{})) {
+	const dsz = 3200
+	d := NewCDisk(dsz)
+	kv := kvs.MkKVS(d, dsz)
+	first := uint64(common.LOGSIZE)
+	keys := []uint64{first, first + 1, first + 2}
+	d.SetPerturb(rng.U64() | 1)
+	base := d.StartRecording()
+	type ack struct {
+		key, id uint64
+		call, ret int
+	}
+	var acks []ack
+	var wg sync.WaitGroup
+	stop := make(chan struct{})
+	val := kvVal(1000000)
+	for b := 0; b < 3; b++ {
+		wg.Add(1)
+		go func(b int) {
+			defer wg.Done()
+			var pairs []kvs.KVPair
+			for j := 0; j < 513; j++ {
+				pairs = append(pairs, kvs.KVPair{Key: first + 600 + uint64(b*600+j), Val: val})
+			}
+			for {
+				select {
+				case <-stop:
+					return
+				default:
+				}
+				if kv.MultiPut(pairs) {
+					viol("a MultiPut of 520 pairs (more than one journal transaction holds) is answered true")
+					return
+				}
+			}
+		}(b)
+	}
+	for i := 0; i < 300; i++ {
+		k := keys[i%len(keys)]
+		id := uint64(i + 1)
+		c := d.Mark(EvCall, i)
+		ok := kv.MultiPut([]kvs.KVPair{{Key: k, Val: kvVal(id)}})
+		r := d.Mark(EvRet, i)
+		if !ok {
+			viol("MultiPut of one pair fails")
+			break
+		}
+		acks = append(acks, ack{k, id, c, r})
+	}
+	close(stop)
+	wg.Wait()
+	trace := d.StopRecording()
+	kv.Delete()
+	it := NewCutIter(dsz, base, trace)
+	for {
+		e, ok := it.Step()
+		if !ok || len(res.Viol) > 0 {
+			break
+		}
+		if e.Kind != EvRet {
+			continue
+		}
+		cut := it.pos - 1
+		got, err := recoverKvs(it.PrefixImage(), dsz, dsz, keys)
+		res.Images++
+		if err != "" {
+			viol("concurrent refused puts, cut %d: %s", it.pos, err)
+			continue
+		}
+		want := kvState{}
+		maxc := kvState{}
+		for _, a := range acks {
+			if a.ret <= cut {
+				want[a.key] = a.id
+			}
+			if a.call <= cut {
+				maxc[a.key] = a.id
+			}
+		}
+		okst := false
+		for _, cand := range []kvState{want, maxc} {
+			if cand.key(keys) == got {
+				okst = true
+			}
+		}
+		if !okst {
+			viol("while other callers' oversized multi-puts were being refused: cut %d right after the acknowledgement of put #%d: recovered store %s, acknowledged %s (a put is durable once it returns)", it.pos, e.Addr, got, want.key(keys))
+		}
+	}
+	res.Keys["crash/next-to-refused-puts"] = true
 }
 
 func recoverKvs(img map[uint64][]byte, dsz, sz uint64, keys []uint64) (state string, errmsg string) {
